@@ -23,7 +23,7 @@ import (
 )
 
 type c09pScenario struct {
-	// rewrite table: client address index -> effective address indices (disjoint images)
+	// rewrite table: client address index -> effective address indices (images may be shared: two aliases of one mailbox)
 	Rewrites map[int][]int `json:"rewrites"`
 	Rcpts    []int         `json:"rcpts"`
 	Fail     []int         `json:"failing_effective"`               // effective addresses whose per-recipient status is an error
@@ -167,17 +167,40 @@ func c09pRun(sc c09pScenario) (vs []ev.V) {
 		}
 	}
 	// every accepted client address whose expansion contains a failing effective address must get a result
-	for _, r := range sc.Rcpts {
+	// (an address that is not rewritten is its own expansion: it may be the image of another recipient as well)
+	for _, a := range accepted {
+		r := -1
+		for i, x := range c09pClient {
+			if x == a {
+				r = i
+			}
+		}
 		exp, ok := sc.Rewrites[r]
 		if !ok {
-			continue
+			exp = []int{6 + r}
 		}
 		for _, e := range exp {
 			for _, f := range sc.Fail {
-				if e == f && !reported[c09pClient[r]] {
-					vs = append(vs, ev.Vf("status:pipeline-failure-not-reported", "effective recipient %s of %s failed but no result names %s (reported: %v)", c09pEffective[e], c09pClient[r], c09pClient[r], col.keys))
+				if e == f && !reported[a] {
+					vs = append(vs, ev.Vf("status:pipeline-failure-not-reported", "effective recipient %s of %s failed but no result names %s (reported: %v)", c09pEffective[e], a, a, col.keys))
 				}
 			}
+		}
+		if len(sc.Refuse) > 0 {
+			continue
+		}
+		// the harness target reports one result per recipient it was given: every accepted client address gets one,
+		// and exactly one when it stands for a single effective address
+		n := 0
+		for _, k := range col.keys {
+			if k == a {
+				n++
+			}
+		}
+		if n == 0 {
+			vs = append(vs, ev.Vf("status:pipeline-no-result-for-accepted-recipient", "%s was accepted (effective %v) and the target reported a result for every recipient, none names %s (reported: %v, rewrites %v)", a, exp, a, col.keys, sc.Rewrites))
+		} else if n > 1 && len(exp) == 1 {
+			vs = append(vs, ev.Vf("status:pipeline-several-results-for-one-recipient", "%s stands for one effective address and got %d results (reported: %v, rewrites %v)", a, n, col.keys, sc.Rewrites))
 		}
 	}
 	return vs
@@ -189,15 +212,34 @@ func TestVerifC09Pipeline(t *testing.T) {
 		sc := c09pScenario{Rewrites: map[int][]int{}, Level: rapid.SampledFrom([]string{"global", "source", "destination", "both", "reroute", "reroute-in-destination"}).Draw(t, "level")}
 		next := 0
 		usedClient := map[int]bool{}
+		// shared: two client addresses may have the same image (two aliases of one mailbox), otherwise images stay disjoint
+		shared := rapid.IntRange(0, 2).Draw(t, "shared_images") == 0
 		for k := 0; k < len(c09pClient); k++ {
 			if rapid.Bool().Draw(t, "rewritten") && next < 6 {
 				n := rapid.IntRange(1, 2).Draw(t, "fanout")
 				for i := 0; i < n && next < 6; i++ {
-					// sometimes the image is another client address (images stay disjoint)
-					if j := rapid.IntRange(0, 11).Draw(t, "chain_to"); j < len(c09pClient) && j != k && !usedClient[j] && sc.Level != "both" {
-						usedClient[j] = true
-						sc.Rewrites[k] = append(sc.Rewrites[k], 6+j)
-						continue
+					// sometimes the image is another client address
+					if j := rapid.IntRange(0, 11).Draw(t, "chain_to"); j < len(c09pClient) && j != k && (shared || !usedClient[j]) && sc.Level != "both" {
+						dup := false
+						for _, x := range sc.Rewrites[k] {
+							dup = dup || x == 6+j
+						}
+						if !dup {
+							usedClient[j] = true
+							sc.Rewrites[k] = append(sc.Rewrites[k], 6+j)
+							continue
+						}
+					}
+					if shared && next > 0 && rapid.Bool().Draw(t, "reuse_image") {
+						e := rapid.IntRange(0, next-1).Draw(t, "image")
+						dup := false
+						for _, x := range sc.Rewrites[k] {
+							dup = dup || x == e
+						}
+						if !dup {
+							sc.Rewrites[k] = append(sc.Rewrites[k], e)
+							continue
+						}
 					}
 					sc.Rewrites[k] = append(sc.Rewrites[k], next)
 					next++
@@ -224,6 +266,17 @@ func TestVerifC09Pipeline(t *testing.T) {
 				rw = true
 			}
 		}
-		return ev.Info{Nontrivial: rw && len(sc.Fail) > 0, Classes: []string{"level=" + sc.Level}}
+		seen, sharedImg := map[int]bool{}, false
+		for _, r := range sc.Rcpts {
+			exp, ok := sc.Rewrites[r]
+			if !ok {
+				exp = []int{6 + r}
+			}
+			for _, e := range exp {
+				sharedImg = sharedImg || seen[e]
+				seen[e] = true
+			}
+		}
+		return ev.Info{Nontrivial: rw && len(sc.Fail) > 0, Classes: []string{"level=" + sc.Level, fmt.Sprintf("shared_image=%v", sharedImg)}}
 	}})
 }
